@@ -346,6 +346,7 @@ def check_zone_names(ctx, rep):
     if model is None:
         rep.bad("T-ZONES", "T-ZONES:short-name:shape", b.where() if b else "-", "timezone_short_name is not `id[id.find('/').map_or(0, |v| v + 1)..]`: %s" % why)
         return 1
+    check_fallback_before_refusal(ctx, rep)
     prefixes, sep = prefix_table(prog)
     if not prefixes or sep != "/":
         rep.gap("find_timezone prefix table", "-", "array of area prefixes / the \"{prefix}/{name}\" template not found (prefixes=%s sep=%s)" % (prefixes, sep))
@@ -683,4 +684,41 @@ def check_named_zone_constructor(ctx, rep):
         rep.ok("T-TZGUARD", key, b.where(min(mk)), "every successful path passes make_date_time_with_tz(value, <the zone argument>)")
     else:
         rep.bad("T-TZGUARD", "T-TZGUARD:" + key, b.where(leak) if leak is not None else b.where(), "parse_from_rfc3339_with_timezone can return a value without placing it in the named zone (%s): the instant is kept, the zone is not" % ("a path avoids make_date_time_with_tz" if mk else "make_date_time_with_tz is never given the zone argument"))
+    return 1
+
+
+
+def check_fallback_before_refusal(ctx, rep):
+    """find_timezone refuses a name only after the area-prefix search has run: the table evaluation of T-ZONES models the lookup
+    as "exact id, else the first prefix for which prefix/name exists" - a guard that returns the error before the search (for
+    names containing a `/`, say) is outside that model and makes `Indiana/Knox`, which only the search resolves, unreadable.
+    Must-pass: with the blocks that run the search removed, no `Err` result is reachable"""
+    prog = ctx.prog
+    b = prog.get("haystack::timezone::iana::find_timezone")
+    if b is None:
+        rep.gap("find_timezone", "-", "not found")
+        return 0
+    search = {bi for bi, t in b.calls() if strip_generics(mir.callee_name(t) or "").split("::")[-1] in ("find_map", "find", "any", "position", "next", "try_fold", "filter_map")}
+    errs = set()
+    for bi in range(b.n):
+        for st in b.blocks[bi]["stmts"]:
+            if st["k"] == "assign" and not st["lhs"]["p"] and st["lhs"]["l"] == 0 and st["rv"]["k"] == "agg" and st["rv"].get("variant") == "Err":
+                errs.add(bi)
+    seen, todo, leak = set(), [0], None
+    while todo:
+        x = todo.pop()
+        if x in seen or b.blocks[x].get("cleanup"):
+            continue
+        seen.add(x)
+        if x in search:
+            continue
+        if x in errs:
+            leak = x
+            break
+        todo.extend(b.succ(x))
+    key = "find_timezone:search-before-refusal"
+    if search and errs and leak is None:
+        rep.ok("T-ZONES", key, b.where(), "every Err result lies behind the prefix search")
+    else:
+        rep.bad("T-ZONES", "T-ZONES:" + key, b.where(leak) if leak is not None else b.where(), "find_timezone can refuse a name without having tried the area prefixes (%s): names that only the prefix search resolves are rejected" % ("an Err is built on a path that avoids the search" if leak is not None else "no search / no Err result found"))
     return 1
